@@ -77,6 +77,21 @@ def gen(seed, tier):
                 o["c"] = 1
             cases.append(("C14-%d" % n, "C", opts_str(o), seg(0, lines)))
             n += 1
+    # every (type code, category) pair of the identification squitter: wake class letter or blank
+    for rep in range(1 if tier == "quick" else 6):
+        combos = [(tc, ca) for tc in range(1, 5) for ca in range(8)]
+        r.shuffle(combos)
+        for part in range(0, 32, 8):
+            lines = []
+            for (tc, ca), icao in zip(combos[part:part + 8], r.sample(ICAOS, 8)):
+                lines.append(g.f_df17(icao, me_ident(tc, ca, [r.randint(1, 26) for _ in range(8)])))
+                if r.random() < 0.5:
+                    lines.append(g.f_short(4, icao, ac13_from_alt25(r.randint(40, 2047))))
+            o = {"i": r.choice(["e", "aAews", "x"]), "u": -1, "o": "x"}
+            if r.random() < 0.5:
+                o["U"] = 1
+            cases.append(("C14-w%d" % n, "C", opts_str(o), seg(0, lines)))
+            n += 1
     return cases
 
 
@@ -87,7 +102,26 @@ def oracle(parts, outcome, obs):
     flags = "".join(opts.get("i", "").split("+"))
     cols, width = columns(flags)
     want_header = " ".join(n.rjust(w) for g, n, w in header_cols() if not g or GROUP_LETTER[g] in flags) + " LC"
-    for k, fr in enumerate(frames_of(obs)):
+    # contents: the W cell of the last frame is the wake class of the aircraft's identification squitter (blank otherwise),
+    # the callsign cell its callsign -- every aircraft has at most one DF17 identification frame in these cases
+    ident = {}
+    for t, lines in pyspec.case_segments(parts):
+        for ln in lines:
+            f = pyspec.frame_of_line(ln)
+            if f and f != "zero" and f[0] == 17 and 1 <= getbits(f[2], 112, 33, 37) <= 4:
+                ident[f[1]] = (getbits(f[2], 112, 33, 37), getbits(f[2], 112, 38, 40))
+    all_frames = frames_of(obs)
+    if all_frames and len(all_frames[-1]) >= 3 and all_frames[-1][0] == want_header:
+        for line in rows_of_frame(all_frames[-1]):
+            try:
+                a = int(line[:6], 16)
+            except ValueError:
+                continue
+            tc, ca = ident.get(a, (0, 0))
+            want_w = {1: "L", 2: "S", 3: "M", 4: "H", 5: "J", 7: "R"}.get(ca, " ") if tc == 4 else " "
+            if len(line) == len(all_frames[-1][0]) and cell(line, cols, "W") .strip(" ") != want_w.strip(" "):
+                return "last frame: aircraft %06X (category %d.%d) shows wake class %r, expected %r" % (a, tc, ca, cell(line, cols, "W"), want_w)
+    for k, fr in enumerate(all_frames):
         if len(fr) < 3:
             return "frame %d too short" % k
         if fr[0] != want_header:
